@@ -15,9 +15,16 @@ CONTENTS = {
 KINDS = ['pp', 'table', 'table2', 'record', 'help', 'leadblank', 'ghist', 'table4', 'relimit', 'retitle']
 
 
-def make_conf(content, nc):
+_CONF_SRC = {}        # id(configuration made by make_conf) -> (content, no_color): lets a mode build an equal temporary one
+
+
+def make_conf(content, nc, temporary=False):
     from ak.color import ColorsConfig
-    return ColorsConfig(CONTENTS[content], no_color=nc)
+    conf = ColorsConfig(CONTENTS[content], no_color=nc)
+    if not temporary:
+        _CONF_SRC[id(conf)] = (content, nc)      # no reference is kept (a discarded configuration must really go away);
+                                                 # every configuration comes from here, so a reused id is overwritten
+    return conf
 
 
 class Objects:
@@ -171,6 +178,19 @@ def render(objs, kind, conf, nocolor, mode):
         if kind == 'pp':
             return str(objs.pp(objs.value, palette=pal, no_color=nocolor))
         return str(target.ch_text(palette=pal, no_color=nocolor))
+    if mode == 'tempconf':
+        # the result is requested with a temporary configuration (same contents) that the caller discards before the
+        # result is consumed
+        import gc
+        src = _CONF_SRC.get(id(conf))
+        if src is None:
+            return str(start(conf, nocolor))
+        temp = make_conf(src[0], src[1], temporary=True)
+        res = start(temp, nocolor)
+        del temp
+        gc.collect()
+        lines = list(res)
+        return '\n'.join(str(CHText(line)) for line in lines)
     res = start(conf, nocolor)
     if mode == 'whole':
         return str(res)
@@ -211,7 +231,7 @@ def _other_conf():
     return _OTHER[0]
 
 
-LINE_MODES = ('lines', 'collect', 'inter1', 'inter2', 'palobj')
+LINE_MODES = ('lines', 'collect', 'inter1', 'inter2', 'palobj', 'tempconf')
 
 
 def render_linewise(objs, kind, conf, nocolor, whole):
